@@ -356,6 +356,19 @@ def run_property(mod, prop, tier, seed, replay=None):
             mod.extract(ctx)
         except Exception as e:  # extractor could not read the source: obligation broken
             ctx.violation("obligation", "extract", f"ast extractor failed: {e!r}", {"step": "extract"})
+    # 1b. source translator: regenerate this property's Generated/Code<prop>.lean from the current source
+    try:
+        from harness import py2lean
+        if prop in py2lean.GROUPS:
+            rep = py2lean.generate(prop)
+            ctx.stats["translated_functions"] = sum(1 for r in rep.values() if r["status"] == "translated")
+            for name, r in rep.items():
+                if r["status"] != "translated":
+                    ctx.violation("obligation", f"translate:{name}", f"source translator could not translate {r['origin']}: {r.get('why')}",
+                                  {"step": "py2lean", "function": r["origin"]})
+            ctx.translation = rep
+    except Exception as e:
+        ctx.violation("obligation", "translate", f"source translator failed: {e!r}", {"step": "py2lean"})
     # 2. build
     # only this property's obligations (and the model driver): a table that no longer checks for
     # another property must not raise an alarm here
